@@ -22,6 +22,8 @@ type Outcome struct {
 	// Nested (exec of a batch item): the callback runs node Nested-1 (a batch
 	// node of its own) with the context it was given, and waits for it.
 	Nested int `json:"nested,omitempty"`
+	// NestedStore: the nested run gets a scratch store of its own instead of the run's store.
+	NestedStore bool `json:"nested_store,omitempty"`
 	// Panic (exec): the callback panics with a non-error value instead of returning.
 	Panic bool `json:"panic,omitempty"`
 }
@@ -187,6 +189,8 @@ func (n *NodeSpec) configRun(r int) config {
 		switch s.Param {
 		case "retries":
 			c.Retries = s.Val
+		case "retries+":
+			c.Retries += s.Val
 		case "wait":
 			c.WaitMs = s.Val
 		case "conc":
